@@ -152,7 +152,9 @@ def new_ctx(api, lim, target=None):
             chk = api.Context()
             chk.set("__q", fn)
             chk.eval("%s.%s = 7" % target)
-            if chk.eval("__q()") != 7 or scratch.eval("__q()") != 0:
+            got = chk.eval("__q()")
+            chk.eval("delete %s.%s" % target)
+            if got != 7:        # the function must resolve the path in the context that calls it
                 raise RuntimeError("marker reader for %s.%s does not work when shared between contexts" % target)
             _TARGET_FN[target] = fn
         ctx.set("__q", _TARGET_FN[target])
